@@ -138,3 +138,6 @@ if err:
     with open(os.path.join(bdir, "ccpack.inc"), "w") as f:
         f.write("#error ccparse/gen.py: " + err.replace("\n", " ")[:600] + "\n")
     print("DROP: packInto slice unusable on this run: " + err[:300])
+else:
+    with open(os.path.join(bdir, "ccpack_ok.h"), "w") as f:        # tells replay.cc that the pack slice can be compiled in
+        f.write("#define CV_PACK 1\n")
